@@ -249,8 +249,9 @@ func c05Loop(t *testing.T, c c05LoopCase) (viol [][2]string, gaps []time.Duratio
 			}
 		}
 		_ = offered
-		if !at[0].Equal(start) && !(c.Stall > 0 && c.StallAt == 0) {
-			bad("C05:loop-first-request", "first request %s after start", at[0].Sub(start))
+		// (When the first request comes is not stated: only that requests start and recur.)
+		if d := at[0].Sub(start); d > c.Max && !(c.Stall > 0 && c.StallAt == 0) {
+			bad("C05:loop-first-request", "first request only %s after start (> max)", d)
 		}
 		for i := 1; i < len(at); i++ {
 			g := at[i].Sub(at[i-1])
@@ -302,7 +303,7 @@ func c05Loop(t *testing.T, c c05LoopCase) (viol [][2]string, gaps []time.Duratio
 func TestVerifC05Loop(t *testing.T) {
 	r := ev.Begin("C05", "loop")
 	defer r.End(t)
-	r.Rule = "the real Advertiser.multicast loop under a virtual clock (testing/synctest): 26 (min,max) pairs x 3 start instants (= PRNG seeds) x 6 waits, 3 pairs x 600 consecutive waits, and 3 pairs x a request taken late (by 0.5, 2.5, 7 intervals; at request 1, 2, 4) over an unbuffered channel; oracle: first request at once, every wait is a whole number of seconds within the bounds (<=16s for the first three), requests recur and stop at cancellation; non-trivial = every run; distinct = distinct (pair, offset)"
+	r.Rule = "the real Advertiser.multicast loop under a virtual clock (testing/synctest): 26 (min,max) pairs x 3 start instants (= PRNG seeds) x 6 waits, 3 pairs x 600 consecutive waits, and 3 pairs x a request taken late (by 0.5, 2.5, 7 intervals; at request 1, 2, 4) over an unbuffered channel; oracle: requests start within max, every wait is a whole number of seconds within the bounds (<=16s for the first three), requests recur and stop at cancellation; non-trivial = every run; distinct = distinct (pair, offset)"
 	if r.Replay != nil {
 		var c c05LoopCase
 		if err := json.Unmarshal(r.Replay, &c); err != nil {
